@@ -337,6 +337,21 @@ def run(res, tier):
                            'server\'s wake-up time and its callback does not run' % (g.q, (c.get('q') or '').split('::')[-1], c.args()[0].text(30) if c.args() else '', bad.text(50) if bad is not None else ''))
     if n_rt < 8:
         raise AnalysisBroken('ROOTS: only %d pulse-driving calls found in ReflectServer' % n_rt)
+    # ---- INVALIDATE-ALWAYS: an invalidation is never swallowed because of where the node currently is
+    fi = fx.fn1(PN + '::InvalidatePulseTime')
+    clr = [w for w in fi.walk() if w['k'] == 'BinaryOperator' and w.get('op') == '=' and A.strip_casts(w['ch'][0]).get('n') == '_myScheduledTimeValid' and A.strip_casts(w['ch'][1]).get('v') in (0, False)]
+    if not clr:
+        raise AnalysisBroken('RE-ASK: InvalidatePulseTime: the store _myScheduledTimeValid = false was not found')
+    badc = None
+    for w in clr:
+        for (cn, t) in G.atoms_at(fi, w):
+            core, pol = A.bool_polarity(cn, t)
+            if not (core['k'] == 'MemberExpr' and core.get('n') == '_myScheduledTimeValid' and pol is True):
+                badc = badc or core
+    res.ob('RE-ASK', fi.where(clr[0]), 'InvalidatePulseTime clears the valid flag whenever it was set (the store depends on nothing else)', badc is None, function=fi.q, key='RE-ASK|%s|invalidate-always' % fi.q,
+           message='InvalidatePulseTime() clears _myScheduledTimeValid only under `%s` as well: a node that is already queued for recalculation because of a DESCENDANT (its own time still valid) and then '
+                   'changes its own time keeps its valid flag, GetPulseTime() is never called on it again, and with clearPrevResult its scheduled time has already been wiped — the node\'s timer is '
+                   'cancelled for good and the root reports a wake-up time that is not the minimum' % (badc.text(50) if badc is not None else ''))
     # ---- LINKS unlink-complete: taking a child out of a list updates both ends of the list
     f = fx.fn1(PN + '::ReschedulePulseChild')
     from msa import ip as IP
